@@ -4,6 +4,10 @@ import PyamgV.Model.ExtC17R4Graph
 import PyamgV.Model.ExtC17R4Pairwise
 import PyamgV.Model.ExtC17R4Cljp
 import PyamgV.Model.ExtC17R4Fit
+import PyamgV.Model.ExtC17R4Svd
+import PyamgV.Model.ExtC17R4Evo
+import PyamgV.Model.ExtC17R4Air
+import PyamgV.Model.ExtC17R4AirB
 import PyamgV.Driver.ExtE7
 /-! Driver ops of extension task E32 (property C17, round 4; op names prefixed `ext_c17r4_`): the checked
 (`Ck`) models of `Model/ExtC17R4*.lean`, same output conventions as `Driver/C17.lean` (values, then
@@ -21,6 +25,17 @@ def cjOpsF : C17R4.CjOps Float := ⟨fun c nc => Float.ofInt c / Float.ofInt nc,
 
 /-- `fit_candidates_real<int, double>`: `norm(a) = a*a`, `dot(a, b) = b*a` -/
 def fitOpsF : C17R4.FitOps Float := ⟨(· + ·), (· - ·), (· * ·), (· / ·), 0.0, 1.0, fun a => a * a, fun a b => b * a, Float.sqrt, fun a b => a > b⟩
+
+/-- IEEE doubles for the dense helpers of linalg.h (`T = F = double`) -/
+def svOpsF : C17R4.SvOps Float :=
+  { add := (· + ·), sub := (· - ·), mul := (· * ·), div := (· / ·), neg := fun a => -a, conj := id, re := id, nrm := Float.abs,
+    sqrt := Float.sqrt, abs := Float.abs, sgn := fun a => if a < 0.0 then -1.0 else 1.0, zero := 0.0, one := 1.0, two := 2.0,
+    fifty := 50.0, eps := Float.ofScientific 2220446049250313 true 31, ofInt := Float.ofInt, lt := fun a b => a < b,
+    le := fun a b => a ≤ b, eq := fun a b => a == b }
+
+def esOpsF : C17R4.EsOps Float := ⟨svOpsF, fun _ => 0.0, fun _ => 0.0, id, fun a => a * a, 1e-8, 1e-4⟩
+
+def airOpsF : C17R4.AirOps Float := ⟨svOpsF, 1e-12⟩
 
 def handle : List String → Option String
   | ["ext_c17r4_vertex_coloring_mis", n, ap, aj, x] =>
@@ -53,6 +68,21 @@ def handle : List String → Option String
     let res := C17R4.fitCandidates fitOpsF ((parseFloats tol).getD 0 0.0) (nat ncol) (int k1) (int k2) (parseInts ap) (parseInts ai) (parseFloats ax)
       (parseFloats b) (parseFloats r)
     some <| ExtE7.showFloats res.val.1 ++ ";" ++ ExtE7.showFloats res.val.2 ++ flag res.ok
+  | ["ext_c17r4_pinv_array", m, n, tr, aa] =>
+    let r := C17R4.pinvArray svOpsF 0.0 (parseFloats aa) (int m) (int n) (tr == "T")
+    some <| ExtE7.showFloats r.val ++ flag r.ok
+  | ["ext_c17r4_evolution_strength_helper", sx, sp, sj, nrows, b, db, bdb, cols, nd, tol] =>
+    let r := C17R4.evolutionHelper esOpsF 0.0 ((parseFloats tol).getD 0 0.0) (parseFloats sx) (parseInts sp) (parseInts sj) (nat nrows) (parseFloats b)
+      (parseFloats db) (parseFloats bdb) (int cols) (nat nd)
+    some <| ExtE7.showFloats r.val ++ flag r.ok
+  | ["ext_c17r4_approx_ideal_restriction_pass2", rp, rj, rx, n, ap, aj, ax, cp, cj, cpts, split, dist, ug, mi, pc] =>
+    let r := C17R4.airPass2 airOpsF (parseInts rp) (parseInts rj) (parseFloats rx) (ExtE7.mkGF n ap aj ax) (parseInts cp) (parseInts cj) (parseInts cpts)
+      (parseInts split) (int dist) (ug == "1") (int mi) (pc == "1")
+    some <| showInts r.val.1 ++ ";" ++ ExtE7.showFloats r.val.2 ++ flag r.ok
+  | ["ext_c17r4_block_approx_ideal_restriction_pass2", rp, rj, rx, n, ap, aj, ax, cp, cj, cpts, split, bs, dist, ug, mi, pc] =>
+    let r := C17R4.airBPass2 airOpsF 1e-15 (parseInts rp) (parseInts rj) (parseFloats rx) (ExtE7.mkGF n ap aj ax) (parseInts cp) (parseInts cj) (parseInts cpts)
+      (parseInts split) (int bs) (int dist) (ug == "1") (int mi) (pc == "1")
+    some <| showInts r.val.1 ++ ";" ++ ExtE7.showFloats r.val.2 ++ flag r.ok
   | _ => none
 
 end PyamgV.Drv.ExtE32
